@@ -34,7 +34,8 @@ open("/verif/checks_config.py", "w").write(src)
 ka = json.load(open("/verif/known_findings.json")); kb = json.load(open(W + "/known_findings.json"))
 for k in kb.get("known", []):
     same = [x for x in ka["known"] if x.get("property") == k.get("property") and x.get("class") == k.get("class")]
-    if not same:
+    removed = [tuple(l.split()) for l in open("/verif/tools/removed_known.txt")]
+    if not same and (k.get("property"), k.get("class")) not in removed:
         ka["known"].append(k); print("known +", k.get("property"), k.get("class"))
 for k in kb.get("fixed", []):
     if k not in ka["fixed"]:
